@@ -41,11 +41,20 @@ pub struct Step {
     pub sub: Option<Box<Program>>,
 }
 
-/// inputs (valid types) followed by steps; the output is the last step
+/// inputs (valid types) followed by steps; the output is the last step unless `out` names another one
 #[derive(Clone, Debug, Serialize, Deserialize)]
 pub struct Program {
     pub inputs: Vec<Type>,
     pub steps: Vec<Step>,
+    /// index of the output step (None: the last step); steps after it are readers of it or dead nodes
+    #[serde(default)]
+    pub out: Option<usize>,
+}
+
+impl Program {
+    pub fn out_index(&self) -> usize {
+        self.out.unwrap_or(self.steps.len().saturating_sub(1)).min(self.steps.len().saturating_sub(1))
+    }
 }
 
 fn op_name(op: &Operation) -> String {
@@ -117,6 +126,7 @@ pub struct Built {
     pub graph: Graph,
     pub step_nodes: Vec<Node>,
     pub has_sub: bool,
+    pub out_idx: usize,
 }
 
 fn build_graph(ctx: &Context, p: &Program, subs: &[Option<Graph>]) -> Result<(Graph, Vec<Node>), BuildOutcome> {
@@ -180,7 +190,7 @@ pub fn build(p: &Program) -> BuildOutcome {
                     Err(_) => return BuildOutcome::FinalizeError(format!("sub-graph of step {} is not buildable", si)),
                 };
                 let fin = catch(|| -> ciphercore_base::errors::Result<()> {
-                    sg.set_output_node(nodes.last().unwrap().clone())?;
+                    sg.set_output_node(nodes[sp.out_index()].clone())?;
                     sg.finalize()?;
                     Ok(())
                 });
@@ -199,14 +209,14 @@ pub fn build(p: &Program) -> BuildOutcome {
         return BuildOutcome::FinalizeError("program without steps".into());
     }
     let fin = catch(|| -> ciphercore_base::errors::Result<()> {
-        g.set_output_node(nodes.last().unwrap().clone())?;
+        g.set_output_node(nodes[p.out_index()].clone())?;
         g.finalize()?;
         ctx.set_main_graph(g.clone())?;
         ctx.finalize()?;
         Ok(())
     });
     match fin {
-        Ok(Ok(())) => BuildOutcome::Built(Built { ctx, graph: g, step_nodes: nodes, has_sub }),
+        Ok(Ok(())) => BuildOutcome::Built(Built { ctx, graph: g, step_nodes: nodes, has_sub, out_idx: p.out_index() }),
         Ok(Err(e)) => BuildOutcome::FinalizeError(format!("finalize: {}", e)),
         Err(m) => BuildOutcome::FinalizeError(format!("finalize panic: {}", m)),
     }
@@ -260,7 +270,7 @@ fn run_inputs(b: &Built, plan: Option<&Plan>, ins: &[Value]) -> RunOutcome {
         }
         None => match eval_whole(b, ins) {
             Ok(v) => {
-                let out_id = b.step_nodes.last().unwrap().get_id() as usize;
+                let out_id = b.step_nodes[b.out_idx].get_id() as usize;
                 RunOutcome::Values(vec![(out_id, v)])
             }
             Err((true, m)) => RunOutcome::Panic(usize::MAX, m),
@@ -385,7 +395,7 @@ fn check_program(p: &Program, single: bool, seed: u64, out: &mut ChunkOut, keep_
     let key = serde_json::to_string(p).unwrap_or_default();
     let h = hash_str(&key);
     out.distinct.push(h);
-    let out_node = b.step_nodes.last().unwrap().clone();
+    let out_node = b.step_nodes[p.out_index()].clone();
     let out_type = match out_node.get_type() {
         Ok(t) => t,
         Err(_) => return,
@@ -635,6 +645,78 @@ fn quiet_backtraces() {
     std::env::set_var("RUST_LIB_BACKTRACE", "0");
 }
 
+/// Graph shapes: a chain of cheap operations in which every step may read any earlier step, with EVERY step as the
+/// output node - so the output has readers, is followed by dead nodes, or is the last node - as the main graph, as
+/// the body of a Call and as the body of an Iterate. (The library's own graph walk frees values it no longer needs;
+/// which values those are depends on the shape, not on the operations.)
+fn shape_programs(thorough: bool) -> Vec<Program> {
+    use ciphercore_base::data_types::{array_type, vector_type, INT32};
+    let t = array_type(vec![2], INT32);
+    let menu = |j: usize| -> Vec<Step> {
+        vec![
+            alpha::step(Operation::Add, vec![Arg::Step(j), Arg::In(0)]),
+            alpha::step(Operation::NOP, vec![Arg::Step(j)]),
+            alpha::step(Operation::Print("dbg".to_string()), vec![Arg::Step(j)]),
+            alpha::step(Operation::Sum(vec![0]), vec![Arg::Step(j)]),
+            alpha::step(Operation::CreateTuple, vec![Arg::Step(j), Arg::Step(j)]),
+        ]
+    };
+    let nmax = if thorough { 4 } else { 3 };
+    let mut chains: Vec<Vec<Step>> = vec![vec![alpha::step(Operation::Add, vec![Arg::In(0), Arg::In(1)])]];
+    let mut all: Vec<Vec<Step>> = vec![];
+    for _ in 1..nmax {
+        let mut next = vec![];
+        for c in chains.iter() {
+            for j in 0..c.len() {
+                for st in menu(j) {
+                    let mut d = c.clone();
+                    d.push(st);
+                    next.push(d);
+                }
+            }
+        }
+        all.extend(next.iter().cloned());
+        chains = next;
+    }
+    let mut out = vec![];
+    for steps in all {
+        for o in 0..steps.len() {
+            let body = Program { inputs: vec![t.clone(), t.clone()], steps: steps.clone(), out: Some(o) };
+            out.push(body.clone());
+            // the same graph as the body of a Call (only bodies the builder accepts: a rejected body is the
+            // main-graph case above)
+            if !matches!(build(&body), BuildOutcome::Built(_)) {
+                continue;
+            }
+            out.push(Program {
+                inputs: vec![t.clone(), t.clone()],
+                steps: vec![Step { op: Operation::Call, args: vec![Arg::In(0), Arg::In(1)], sub: Some(Box::new(body)) }],
+                out: None,
+            });
+        }
+        // as the body of an Iterate: (state, x) -> (state + x, x) built first, the chain's later steps after the output
+        let mut it = vec![
+            alpha::step(Operation::Add, vec![Arg::In(0), Arg::In(1)]),
+            alpha::step(Operation::CreateTuple, vec![Arg::Step(0), Arg::In(1)]),
+        ];
+        for st in steps.iter().skip(1) {
+            // shift the chain's step references by one (step 0 of the chain = step 0 here, later ones follow the tuple)
+            let args = st.args.iter().map(|a| match a { Arg::Step(j) if *j > 0 => Arg::Step(*j + 1), x => x.clone() }).collect();
+            it.push(Step { op: st.op.clone(), args, sub: None });
+        }
+        let body = Program { inputs: vec![t.clone(), t.clone()], steps: it, out: Some(1) };
+        if !matches!(build(&body), BuildOutcome::Built(_)) {
+            continue;
+        }
+        out.push(Program {
+            inputs: vec![t.clone(), vector_type(3, t.clone())],
+            steps: vec![Step { op: Operation::Iterate, args: vec![Arg::In(0), Arg::In(1)], sub: Some(Box::new(body)) }],
+            out: None,
+        });
+    }
+    out
+}
+
 pub fn run(r: &Report) -> i32 {
     quiet_backtraces();
     let level = if r.tier.thorough() { Level::Thorough } else { Level::Quick };
@@ -652,6 +734,28 @@ pub fn run(r: &Report) -> i32 {
     }
     r.extra("spaces", J::Array(space_sizes));
     r.count("single_operation_programs", r.get("programs_offered"));
+    {
+        // graph shapes (see shape_programs)
+        let progs = shape_programs(r.tier.thorough());
+        let seed = r.seed;
+        let before = r.get("accepted_programs");
+        let outs: Vec<ChunkOut> = progs
+            .par_chunks(64)
+            .map(|ps| {
+                let mut co = ChunkOut::default();
+                for p in ps {
+                    check_program(p, false, seed, &mut co, false, false);
+                }
+                co
+            })
+            .collect();
+        let mut scratch: BTreeMap<String, OpStat> = BTreeMap::new();
+        for co in outs {
+            merge(r, &mut scratch, co, &mut sink);
+        }
+        r.count("shape_programs_offered", progs.len() as u64);
+        r.count("shape_programs_accepted", r.get("accepted_programs") - before);
+    }
 
     let budget_s: f64 = std::env::var("VERIF_C09_BUDGET_S").ok().and_then(|s| s.parse().ok()).unwrap_or(480.0);
     if r.tier.thorough() {
